@@ -405,7 +405,13 @@ namespace occa {
       // However, make sure we aren't parsing an identifier:
       //   - true_var
       //   - false_case
-      if (isPrimitive && !lex::inCharset(*pos, charcodes::identifierStart)) {
+      //   - true1 (a literal spelled like an identifier is continued by digits too)
+      const char *continuesIdentifier = (
+        lex::inCharset(c, charcodes::identifierStart)
+        ? charcodes::identifier
+        : charcodes::identifierStart
+      );
+      if (isPrimitive && !lex::inCharset(*pos, continuesIdentifier)) {
         return tokenType::primitive;
       }
       if (lex::inCharset(c, charcodes::identifierStart)) {
